@@ -146,6 +146,16 @@ func extractC17(c *Ctx) error {
 	if um == nil {
 		return fmt.Errorf("unmarshalJob not found")
 	}
+	// the two documents are decoded separately, each into its own value
+	var decodes []string
+	for _, ce := range Calls(um.Body, "Unmarshal") {
+		var as []string
+		for _, a := range ce.Args {
+			as = append(as, squash(c.Src(a)))
+		}
+		decodes = append(decodes, strings.Join(as, ", "))
+	}
+	c.P("Definition unmarshal_decodes : list string := %s.", CoqStrList(decodes))
 	validates := len(Calls(um.Body, "validateHexPayload")) == 1
 	c.P("Definition unmarshal_validates_hex : bool := %v.", validates)
 	if vf := FindFunc(f, "", "validateHexPayload"); vf != nil {
